@@ -271,6 +271,17 @@ def run_web(sc: dict):
         except Exception as e:
             H.strip_tb(e)
             outcome = ("exc", e, None)
+        if cfg.get("then") and cfg["entry"] in ("pm", "proxy") and outcome[0] != "limit":
+            # a second request through the very same manager (same headers, same policy), starting somewhere else
+            w.tags["split"] = len(w.tags.get("log", []))
+            try:
+                r2 = obj.request(cfg["method"], cfg["then"]["start"], **req_kw)
+                w.tags["outcome2"] = ("response", r2.status)
+            except (W.SimHang, W.StepLimit) as e:
+                w.tags["outcome2"] = ("limit", str(e))
+            except Exception as e:
+                H.strip_tb(e)
+                w.tags["outcome2"] = ("exc", e)
     return w, outcome, list(w.tags.get("log", []))
 
 
